@@ -70,7 +70,7 @@ pub const CONFIG_CHANGES: &[&str] = &[
     "flag_visualize",
     "project_path_spelling",
 ];
-pub const DELETABLE: &[&str] = &["types.ts", "commands.ts", "index.ts", "events.ts", ".typecache", "dependency-graph.txt"];
+pub const DELETABLE: &[&str] = &["types.ts", "commands.ts", "index.ts", "events.ts", ".typecache", "dependency-graph.txt", "dependency-graph.dot"];
 pub const TAMPERS: &[&str] = &["truncate", "empty", "bitflip", "version", "wrong_shape"];
 
 fn both_entries_possible(s: &Setup) -> bool {
